@@ -452,7 +452,8 @@ _ADDENDA5 = {
     "C04": (" In-process engine: reconciliation answers (status updates with reason RECONCILIATION for known tasks, running or still starting up) as an operation: "
             "no KILL for a task a live environment holds; a deployment that completes while another teardown's KILL call is pending and then fails."),
     "C05": " Agents with so few ports that the tasks placed there use every one of them (the last ports of an offer taken exactly).",
-    "C06": " TestKillOutcomes: after a request with refused KILL calls the following clean-up of unowned tasks must send a KILL to every survivor.",
+    "C06": (" TestKillOutcomes: after a request with refused KILL calls the following clean-up of unowned tasks must send a KILL to every survivor. "
+            "Creation failure stage deploy-noresources: two critical tasks that cannot both fit one machine (three deployment attempts, every launched task asked to terminate by the next clean-up at the latest)."),
     "C07": " A quarter of the callers go through an apricot server (remote.NewServer / remote.NewService in front of the Service), as a core in apricot:// mode does.",
     "C10": (" A START vetoed in front of everything it does (critical call at before_START_ACTIVITY-3) is not a run: what the previous run left stays as it was; a run "
             "whose tasks fail to start is closed like any run ending in error (both end timestamps)."),
